@@ -15,15 +15,15 @@ type pvar struct {
 }
 
 type progen struct {
-	r        *rand.Rand
-	vars     []pvar   // visible variables, innermost last
-	marks    []int    // len(vars) at each open scope
-	fields   [][]pvar // fields assigned so far in each open block
-	failRate int      // percent of operator nodes that deliberately get an operand of a wrong kind
-	maxDepth int
+	r          *rand.Rand
+	vars       []pvar   // visible variables, innermost last
+	marks      []int    // len(vars) at each open scope
+	fields     [][]pvar // fields assigned so far in each open block
+	failRate   int      // percent of operator nodes that deliberately get an operand of a wrong kind
+	maxDepth   int
 	blockTypes []string
-	nblocks  map[string]int
-	bigStr   bool
+	nblocks    map[string]int
+	bigStr     bool
 }
 
 func newProgen(seed int64) *progen {
